@@ -81,6 +81,8 @@ type Engine struct {
 	MaxInstrs   int64
 	MaxDecisions int
 	decided      map[string]bool
+	budgetAt     int64
+	budgetMsg    string
 	TimeoutMs   int
 	instrs      int64
 	defs        map[string]string
@@ -253,6 +255,7 @@ func (e *Engine) resetPath() {
 	e.captured = nil
 	e.snaps = map[*value]bool{}
 	e.decided = map[string]bool{}
+	e.budgetAt = 0
 	if e.depth > 0 {
 		e.send(fmt.Sprintf("(pop %d)", e.depth))
 	}
